@@ -70,6 +70,8 @@ AUTO = {  # property -> (category, trusted base / bounds, technique)
          "TLA+ specs + TLC exhaustive; TLC validation of recorded counter histories at real constants; quota-case replay on real muxes"),
  "C10": ("exploration", "Trusted: TLC (generator and monitor), reference codec, the supervisor's reading of the child's exit. This is directed exploration of an unbounded input language, not a proof: field classes are boundary values, 1-3 lying fields per unit, 24 steps per behaviour; quick tier 32 behaviours and ~1800 SOCKS5 units, thorough tier 600 behaviours and every enumerated SOCKS5 class member in every world. One genuine defect (cross-user session id panic) found and fixed.",
          "TLA+ input-language specs; TLC-simulated / enumerated hostile inputs replayed against real endpoints in a supervised child process; TLC validation of the event streams"),
+ "C15": ("model_checking", "Trusted: TLC, the Go scheduler and wall clock of a loaded machine (bounds: 1 s deadline slack, 3 s local close, 8 s remote close / failure / Close itself), pprof goroutine labels for leak attribution, the race detector. Real time, not virtual: schedules are 14 steps; quick tier 36 simulated + 32 named schedules on both transports, thorough tier 400 + idle periods beyond the 60 s idle timeout. Five genuine defects fixed, three recorded as known findings.",
+         "TLA+ spec + TLC exhaustive (with a violating variant); schedule replay on real muxes in real time with timed operations; TLC validation of the timed records; race detector run"),
  "C20": ("model_checking", "Trusted: TLC. Field values inside a class are adversarial samples; the set of fields is the model's.",
          "TLA+ merge spec + TLC; case replay through the real store / patch / link functions on both file formats; TLC trace validation"),
 }
